@@ -415,6 +415,7 @@ def export_plan(session: Any, uni: Optional[Universe] = None) -> Dict[str, Any]:
         elif isinstance(st, JoinStep):
             d.update(kind="JOIN", uuids=[r(st.uuid), r(st.link.uuid)], jt=st.link.jointype.name,
                      left_cfw=st.left_framework.__name__, right_cfw=st.right_framework.__name__,
+                     left_order=[r(u) for u in st.left_framework_uuids], right_order=[r(u) for u in st.right_framework_uuids],
                      left_uuids=sorted(r(u) for u in st.left_framework_uuids),
                      right_uuids=sorted(r(u) for u in st.right_framework_uuids),
                      link=[(uni.group_display(st.link.left_feature_group) if uni else st.link.left_feature_group.__name__),
